@@ -133,7 +133,9 @@ def _drive(sim: Sim, env, source, n, comp_name, gap, budget, matched, exact, SOL
         if kind == "reset":
             sim.op("reset")
             with sim.guard("C09.reset_raised"):
-                ret = env.reset()
+                how = sim.choose(3, "reset-args")
+                ret = env.reset() if how == 0 else (env.reset(seed=sim.choose(2 ** 31, "reset-seed")) if how == 1
+                                                    else env.reset(seed=None, options={}))
             revealed, steps_taken = [], 0
             hidden = source.current()
             em.check_env(sim, env, n, comp_name, gap, hidden, revealed, steps_taken, budget, matched, exact, P)
